@@ -194,14 +194,14 @@ theorem parse_treeOK (hT : Sat nextToken TokWF) (s : Str) (o : Opts) (parts : Li
     | some first =>
       simp only [] at h
       have hp : InCls .top first := runParser_ok hT (by rw [hr])
-      rcases hl : parseLoop s o (s.length + 1) (nextIndex first) [first] t with ⟨r2, t2⟩
+      rcases hl : parseLoop s o (s.length + 1) (max (nextIndex first) 1) [first] t with ⟨r2, t2⟩
       rw [hl] at h
       cases r2 with
       | error e => simp only [] at h; cases h
       | ok ps =>
         simp only [] at h
         cases h
-        exact parseLoop_ok hT s o (s.length + 1) (nextIndex first) [first] t _
+        exact parseLoop_ok hT s o (s.length + 1) (max (nextIndex first) 1) [first] t _
           (by intro n hn; simp at hn; subst hn; exact hp.1)
           (by rw [hl])
 
